@@ -57,7 +57,7 @@ Theorem C03_connected_alone_not_inductive :
   exists w a, action_ok a /\ Connected w /\ ~ Bad (step_w a w) /\ ~ Connected (step_w a w).
 Proof. exact connected_not_inductive. Qed.
 
-Theorem C03_step : forall a w, action_ok a -> Good false w -> ~ Bad (step_w a w) -> Connected (step_w a w).
+Theorem C03_step : forall a w, action_ok a -> Good w -> ~ Bad (step_w a w) -> Connected (step_w a w).
 Proof. exact connected_step. Qed.
 
 (* every branch names a commit that has its snapshot and its parents *)
